@@ -1,0 +1,34 @@
+// ---------------------------------------------------------------------------
+// Scheduling points for deterministic-simulation testing.
+//
+// Compiled only with `--cfg fpdec_verif`; without that flag this module does
+// not exist and none of the `point(..)` calls is compiled.  A test harness
+// may register one process-wide callback; it is invoked at the marked places
+// of the rounding code, on the thread that executes them, so that a simulator
+// can pre-empt a thread in the middle of a library operation.  The library
+// never registers a callback itself and its results do not depend on one.
+// ---------------------------------------------------------------------------
+
+use core::sync::atomic::{AtomicPtr, Ordering};
+
+static HOOK: AtomicPtr<()> = AtomicPtr::new(core::ptr::null_mut());
+
+/// Registers (`Some`) or removes (`None`) the process-wide callback.
+pub fn set_hook(f: Option<fn(u8)>) {
+    let p = match f {
+        Some(f) => f as *mut (),
+        None => core::ptr::null_mut(),
+    };
+    HOOK.store(p, Ordering::SeqCst);
+}
+
+/// A scheduling point; `site` identifies the place in the code.
+#[inline]
+pub fn point(site: u8) {
+    let p = HOOK.load(Ordering::Relaxed);
+    if !p.is_null() {
+        // SAFETY: the only non-null values ever stored are `fn(u8)` pointers.
+        let f: fn(u8) = unsafe { core::mem::transmute::<*mut (), fn(u8)>(p) };
+        f(site);
+    }
+}
